@@ -433,6 +433,33 @@ def r14_7(run):
     run.ob('R14.7', init, init.node, 'port validators examined', True)
 
 
+def r14_11(run):
+    """a caller-supplied key is sent unchanged apart from its type prefix - whatever its (base64) text happens to contain.  Before the
+    ADD_ONION the key text is only examined for line breaks and for a *missing* type marker; a refusal taken because the text
+    *contains* some other substring ("V3", "RSA" ...) rejects valid keys whose base64 happens to spell it"""
+    u = AES(run)
+    g = cfg_of(u)
+    cmdn = g.nodes_where(lambda n: any(isinstance(a, ast.Call) and callee_attr(a) == 'queue_command' for a in node_asts(n)))
+    if not cmdn:
+        raise AnchorVanished('_add_ephemeral_service: ADD_ONION command')
+    after = g.reachable(cmdn)
+    keynames = set(['keystring']) | set(names_defined_by(u, lambda v: 'private_key' in src(v)))
+    k = 0
+    for e in [n for n in g.real_nodes() if n.kind == 'stmt' and isinstance(n.ast, ast.Raise) and n not in after]:
+        for t, lab in g.guarded_by(e, lambda t_: isinstance(t_, ast.Compare) and len(t_.ops) == 1 and isinstance(t_.ops[0], (ast.In, ast.NotIn)) and isinstance(t_.left, ast.Constant)
+                                   and isinstance(t_.left.value, str)):
+            right = dotted(t.ast.comparators[0]) or src(t.ast.comparators[0])
+            if not (right in keynames or 'private_key' in right):
+                continue
+            k += 1
+            contained = (lab == 'T') == isinstance(t.ast.ops[0], ast.In)
+            ok = (not contained) or t.ast.left.value in ('\r', '\n', '\r\n')
+            run.ob('R14.11', u, t.ast, 'the key text is refused only for line breaks or a missing type marker', ok, slot='key-contains:%s' % t.ast.left.value[:10],
+                   message='_add_ephemeral_service refuses the request when the key text contains %r: a valid key blob whose base64 text happens to contain it is rejected and no '
+                           'ADD_ONION is sent' % t.ast.left.value)
+    run.floor('R14.11', 'substring tests on the key that guard a refusal', k, 1)
+
+
 def r14_5(run):
     """create(): the options travel unchanged from the caller to the service object / helper"""
     for cname, has_auth in (('EphemeralOnionService', False), ('EphemeralAuthenticatedOnionService', True)):
@@ -525,6 +552,7 @@ RULES = [
     ('R14.8', 'who-may-refuse: refusals before ADD_ONION depend only on the request itself, not on other services of the configuration', r14_8),
     ('R14.9', 'accept set: numeric tests on int()-converted ports evaluated for representative valid ports 1..65535; none leads only to a refusal', r14_9),
     ('R14.10', 'tokens are opaque: no decoder applied to, and no refusal decided by, the contents of a client token in the auth constructors', r14_10),
+    ('R14.11', 'who-may-refuse on the key text: only line breaks (contained) and type markers (missing)', r14_11),
     ('R14.5', 'options flow unchanged from create() to the service object and the helper', r14_5),
 ]
 
